@@ -276,6 +276,11 @@ func partMenu(k ref.Kind, l geom.Layout) []*ref.G {
 		}
 	case ref.MultiPoint:
 		out = append(out, ref.NewPoint(l, false, ref.Counter()), ref.NewPoint(l, true, ref.CounterFrom(10)), ref.NewPoint(l, true, ref.CounterFrom(20)))
+		// a point WITH coordinates that all carry the canonical quiet-NaN pattern (the wire form of
+		// the empty point): pushed, it is a part with coordinates like any other
+		nanPt := ref.NewPoint(l, true, ref.Counter())
+		nanPt.Ordinates(func(p *ref.F) { *p = ref.F(ref.SpecialFloats[0]) })
+		out = append(out, nanPt)
 	case ref.MultiPolygon:
 		for i, sizes := range [][]int{{}, {0}, {1}, {2, 1}, {0, 2}, {5, 0, 4}} {
 			out = append(out, ref.NewParts(ref.Polygon, l, sizes, ref.CounterFrom(float64(10*(i+1)))))
